@@ -38,7 +38,7 @@ def strip_generics(s):
             while j < n:
                 if s[j] == "<":
                     depth += 1
-                elif s[j] == ">":
+                elif s[j] == ">" and s[j - 1] != "-":
                     depth -= 1
                     if depth == 0:
                         break
@@ -66,6 +66,11 @@ def balanced_inner(s, start):
 def last_seg(t):
     """chrono::DateTime<chrono::Utc> -> DateTime ; &std::string::String -> String ; [value::Value] -> [Value]"""
     t = t.strip()
+    if t.startswith("{async fn body of ") or t.startswith("{async block"):
+        inner = t[1:-1].replace("async fn body of ", "").replace("()", "")
+        return "async " + inner.split("::")[-1].split("@")[0]
+    if t.startswith("dyn "):
+        return "dyn " + last_seg(t[4:].split(" + ")[0])
     while t.startswith("&"):
         t = t[1:].lstrip()
         if t.startswith("mut "):
@@ -75,10 +80,10 @@ def last_seg(t):
     # drop generic args
     depth = 0
     base = []
-    for ch in t:
+    for i, ch in enumerate(t):
         if ch == "<":
             depth += 1
-        elif ch == ">":
+        elif ch == ">" and (i == 0 or t[i - 1] != "-"):
             depth -= 1
         elif depth == 0:
             base.append(ch)
